@@ -242,7 +242,7 @@ PtqStep(b) ==
   /\ b \in ptq
   /\ LET o == Head(b.ops)
          rest == IF Len(b.ops) = 1 THEN ptq \ {b} ELSE (ptq \ {b}) \cup {[b EXCEPT !.ops = Tail(b.ops)]}
-     IN /\ ev' = [a |-> "PtqStep", op |-> o.op]
+     IN /\ ev' = [a |-> "PtqStep", op |-> o.op, t |-> o.t, k |-> o.k, fr |-> o.fr]
         /\ ptq' = rest
         /\ CASE o.op \in {"start_task", "run_action"} ->
                   /\ msgs' = msgs \cup {WithId(msgs, Msg(o.op, o.t, o.k, "", o.fr, o.w))}
@@ -289,7 +289,7 @@ Deliver(m) ==
   /\ Handle(m, FALSE)
   /\ seen' = Remember(m)
   /\ UNCHANGED <<D, jobs, now>>
-  /\ ev' = [a |-> "Deliver", m |-> m.m, t |-> m.t]
+  /\ ev' = [a |-> "Deliver", m |-> m.m, t |-> m.t, k |-> m.k, fr |-> m.fr, res |-> m.res]
 \* redelivery of a message that was delivered before (reliable messaging may deliver twice)
 Dup(c) ==
   /\ c \in seen /\ hist.dups < DupBudget
@@ -306,16 +306,16 @@ Dup(c) ==
              THEN seen \cup (IF c.m = "run_action" THEN {Msg("on_action_complete", c.t, c.k, "ERROR", TRUE, FALSE)} ELSE {})
              ELSE {}
   /\ UNCHANGED <<D, jobs, now>>
-  /\ ev' = [a |-> "Dup", m |-> c.m, t |-> c.t, fr |-> c.fr]
+  /\ ev' = [a |-> "Dup", m |-> c.m, t |-> c.t, k |-> c.k, fr |-> c.fr, res |-> c.res]
 
 JobCapture(j) ==
   /\ j \in jobs /\ j.phase = "new" /\ j.at <= now
   /\ jobs' = (jobs \ {j}) \cup {[j EXCEPT !.phase = "captured"]}
   /\ UNCHANGED <<D, wf, tk, ax, msgs, seen, ptq, backlog, now, hist>>
-  /\ ev' = [a |-> "JobCapture", func |-> j.func]
+  /\ ev' = [a |-> "JobCapture", func |-> j.func, t |-> j.t]
 JobInvoke(j) ==
   /\ j \in jobs /\ j.phase = "captured"
-  /\ ev' = [a |-> "JobInvoke", func |-> j.func]
+  /\ ev' = [a |-> "JobInvoke", func |-> j.func, t |-> j.t]
   /\ LET ran == (jobs \ {j}) \cup {[j EXCEPT !.phase = "ran"]} IN
      IF j.func = "integrity"
      THEN \* _check_and_fix_integrity: nothing to fix in these runs; re-arms itself while the execution is unfinished
@@ -337,7 +337,7 @@ JobDelete(j) ==
   /\ j \in jobs /\ j.phase = "ran"
   /\ jobs' = jobs \ {j}
   /\ UNCHANGED <<D, wf, tk, ax, msgs, seen, ptq, backlog, now, hist>>
-  /\ ev' = [a |-> "JobDelete", func |-> j.func]
+  /\ ev' = [a |-> "JobDelete", func |-> j.func, t |-> j.t]
 
 (* ---- operator commands (each is one transaction of DefaultEngine) ---- *)
 Spend(S) == [S EXCEPT !.hist.ops = @ + 1]
